@@ -1191,11 +1191,12 @@ func (sdb *DbSqlite) userCheck(email, password string) (data.Nodes, error) {
 			return false, err
 		}
 
+	nextEdge:
 		for _, e := range edges {
-			// make sure edge is not tombstone
+			// a deleted edge is not a path to root, but another edge may be
 			for _, p := range e.Points {
 				if p.Type == data.PointTypeTombstone && p.Value != 0 {
-					return false, nil
+					continue nextEdge
 				}
 			}
 
